@@ -546,7 +546,7 @@ def run(tier, seed, log, model_runs=True, enlarged=False):
                                    "force_types False and True, read back and compared by strict content (kind, identifier URI, "
                                    "attribute URI, value with Python kind / datatype / language / offset, multiplicity, bundle); "
                                    "non-trivial = >=2 record-creating calls",
-                         extra_cases=__import__('harness.progs', fromlist=['x']).scoping_programs(()) + __import__('harness.progs', fromlist=['x']).value_grid_programs(()) + __import__('harness.progs', fromlist=['x']).subtype_programs(()) + fixed_programs(),
+                         extra_cases=__import__('harness.progs', fromlist=['x']).same_text_programs(()) + __import__('harness.progs', fromlist=['x']).scoping_programs(()) + __import__('harness.progs', fromlist=['x']).value_grid_programs(()) + __import__('harness.progs', fromlist=['x']).subtype_programs(()) + fixed_programs(),
                          theorem_note="C02 value-level round trip (Xml.v)")
     if model_runs:
         n, bad = value_grid_correspondence()
